@@ -64,12 +64,12 @@ BOUNDS = {
     "quick": "desc: full menu L<=2, small menu L<=3; pair: pool 260; sets n<=7; iiv 1..6 etas; algo: small product menu, "
              "stepwise cap 120 paths",
     "thorough": "desc: full menu L<=3, small menu L<=4; pair: pool 1500; sets n<=9; iiv 1..6 etas; algo: large product menu, "
-                "stepwise cap 2000 paths",
+                "stepwise cap 500 paths",
 }
 
 PLAN = {
     "quick": {"desc": [("full", 2), ("small", 3)], "pool": 260, "sets": 7, "algo": "small", "cap": 120},
-    "thorough": {"desc": [("full", 3), ("small", 4)], "pool": 1500, "sets": 9, "algo": "large", "cap": 2000},
+    "thorough": {"desc": [("full", 3), ("small", 4)], "pool": 1500, "sets": 9, "algo": "large", "cap": 500},
 }
 
 _MAXV = 60  # violations kept per shard
@@ -127,6 +127,16 @@ def exc(e):
     return f"{type(e).__name__}: {str(e)[:120]}"
 
 
+def ecls(e):
+    """failure-class suffix for an exception: type and the start of the message (digits and quoted names removed)"""
+    import re
+
+    if isinstance(e, KeyError):  # the message is the key itself
+        return "KeyError"
+    msg = re.sub(r"[0-9]+", "N", str(e).split("\n")[0])[:40]
+    return f"{type(e).__name__}:{msg}"
+
+
 def j(x):
     """JSON-able, deterministic rendering of keys / sets"""
     if isinstance(x, (set, frozenset)):
@@ -149,7 +159,7 @@ def check_text(desc, text, m):
     except ValueError as e:  # documented refusal
         return "refused:" + str(e)[:25], fails, 0
     except Exception as e:
-        fail("parse-internal:" + type(e).__name__, f"parse raised {exc(e)} on a grammatical description")
+        fail("parse-internal:" + ecls(e), f"parse raised {exc(e)} on a grammatical description")
         return "parse-internal", fails, 0
     ncmp = 0
     # allometry attribute
@@ -225,7 +235,7 @@ def check_text(desc, text, m):
         if same is not True:
             fail("roundtrip-eq-false", f"parse(repr(x)) == x is {same!r}; repr = {r!r}")
     except Exception as e:
-        fail("roundtrip-eq-exception:" + type(e).__name__, f"parse(repr(x)) == x raised {exc(e)}; repr = {r!r}")
+        fail("roundtrip-eq-exception:" + ecls(e), f"parse(repr(x)) == x raised {exc(e)}; repr = {r!r}")
     return ("ok" if not fails else "fail"), fails, ncmp
 
 
@@ -234,19 +244,26 @@ def legal_desc(desc):
     return len(lets) == len(set(lets))
 
 
-def iter_desc(menu, maxlen, first):
-    """all descriptions of length 1..maxlen starting with menu[first]"""
+def iter_desc(menu, maxlen, first, mod=1, rem=0):
+    """all descriptions of length 1..maxlen starting with menu[first]; with mod > 1 only those whose second statement
+    has index % mod == rem (the 1-statement description belongs to rem 0)"""
     idx = range(len(menu))
     for n in range(1, maxlen + 1):
+        if n == 1:
+            if rem == 0:
+                yield [menu[first]]
+            continue
         for rest in itertools.product(idx, repeat=n - 1):
+            if rest[0] % mod != rem:
+                continue
             yield [menu[first]] + [menu[i] for i in rest]
 
 
 def run_desc(shard, res):
-    _, size, maxlen, first = shard
+    _, size, maxlen, first, mod, rem = shard
     menu = R.statement_menu(size)
     nval = 0
-    for desc in iter_desc(menu, maxlen, first):
+    for desc in iter_desc(menu, maxlen, first, mod, rem):
         if not legal_desc(desc):
             continue
         m = R.meaning(desc)
@@ -290,10 +307,17 @@ def _validate_patch(text, res):
 
 
 def _addv(res, w):
+    """keep a few witnesses (first in enumeration order) per (failure class, known-finding pattern): a witness that does not
+    match a known pattern is never crowded out by ones that do"""
     seen = res.setdefault("_seen", {})
-    n = seen.get(w["class"], 0)
-    seen[w["class"]] = n + 1
-    if n < 3 and len(res["violations"]) < _MAXV:  # a few (smallest first in enumeration order) per class
+    try:
+        pat = classify(w)
+    except Exception:
+        pat = None
+    key = (w["class"], pat)
+    n = seen.get(key, 0)
+    seen[key] = n + 1
+    if n < 3 and len(res["violations"]) < _MAXV:
         res["violations"].append(w)
 
 
@@ -357,7 +381,7 @@ def check_pair(ta, ma, a, tb, mb, b, ops=("add", "sub", "eq", "subset", "lnt")):
         try:
             return by_cat(keys_of(res))
         except Exception as e:
-            fail(op, "result-unusable:" + type(e).__name__,
+            fail(op, "result-unusable:" + ecls(e),
                  f"a {'+' if op == 'add' else '-'} b = {_safe_repr(res)} but convert_to_funcs raises {exc(e)}")
             return None
 
@@ -370,7 +394,7 @@ def check_pair(ta, ma, a, tb, mb, b, ops=("add", "sub", "eq", "subset", "lnt")):
             labels.append("add:refused")
         except Exception as e:
             res = None
-            fail("add", "exception:" + type(e).__name__, f"a + b raised {exc(e)}")
+            fail("add", "exception:" + ecls(e), f"a + b raised {exc(e)}")
         got = result_keys("add", res) if res is not None else None
         if got is not None:
             want = R.ref_union(ma, mb)
@@ -390,7 +414,7 @@ def check_pair(ta, ma, a, tb, mb, b, ops=("add", "sub", "eq", "subset", "lnt")):
             labels.append("sub:refused")
         except Exception as e:
             res = None
-            fail("sub", "exception:" + type(e).__name__, f"a - b raised {exc(e)}")
+            fail("sub", "exception:" + ecls(e), f"a - b raised {exc(e)}")
         got = result_keys("sub", res) if res is not None else None
         if got is not None:
             for c in R.ALL_CATS:
@@ -433,7 +457,7 @@ def check_pair(ta, ma, a, tb, mb, b, ops=("add", "sub", "eq", "subset", "lnt")):
                     fail("eq", ("true-for-different:" + ",".join(diff)) if got else "false-for-equal",
                          f"a == b is {got!r} but the expansions are {'equal' if want else 'different in ' + ','.join(diff)}")
             except Exception as e:
-                fail("eq", "exception:" + type(e).__name__, f"a == b raised {exc(e)}")
+                fail("eq", "exception:" + ecls(e), f"a == b raised {exc(e)}")
     # ---- subset (pure PK spaces only)
     if "subset" in ops:
         if _pure_pk(ma) and _pure_pk(mb):
@@ -447,7 +471,7 @@ def check_pair(ta, ma, a, tb, mb, b, ops=("add", "sub", "eq", "subset", "lnt")):
                          f"a.contain_subset(b) is {got!r} but expansion(b) <= expansion(a) is {want}"
                          + (f" (not contained: {j(set().union(*[mb.cats[c] - ma.cats[c] for c in bad]))})" if bad else ""))
             except Exception as e:
-                fail("subset", "exception:" + type(e).__name__, f"a.contain_subset(b) raised {exc(e)}")
+                fail("subset", "exception:" + ecls(e), f"a.contain_subset(b) raised {exc(e)}")
         else:
             labels.append("subset:not-pure-pk")
     # ---- least number of transformations
@@ -466,7 +490,7 @@ def check_pair(ta, ma, a, tb, mb, b, ops=("add", "sub", "eq", "subset", "lnt")):
                 labels.append("lnt:refused")
             except Exception as e:
                 got = None
-                fail("lnt", "exception:" + type(e).__name__, f"a.least_number_of_transformations(b) raised {exc(e)}")
+                fail("lnt", "exception:" + ecls(e), f"a.least_number_of_transformations(b) raised {exc(e)}")
             if got is not None:
                 disjoint = R.ref_lnt_distance(ma, mb, present)
                 na = 1
@@ -675,6 +699,7 @@ def check_iiv(label, model):
 
 def run_iiv(shard, res):
     models = iiv_models()
+    models = [mm for i, mm in enumerate(models) if i % shard[2] == shard[1]]
     for label, model in models:
         fails, ncmp = check_iiv(label, model)
         res["states"] += 1
@@ -790,8 +815,10 @@ def check_algo(desc, base, cap, algos=("exhaustive", "exhaustive_stepwise", "red
     fails, labels = [], []
     ncmp = ntasks = 0
 
-    def fail(algo, cls, what):
-        fails.append({"algo": algo, "class": f"{algo}:{cls}", "what": f"[space {text!r} base {j(base)}] {algo}: {what}"})
+    def fail(algo, cls, what, **extra):
+        d = {"algo": algo, "class": f"{algo}:{cls}", "what": f"[space {text!r} base {j(base)}] {algo}: {what}"}
+        d.update(extra)
+        fails.append(d)
 
     try:
         real = P(text).convert_to_funcs()
@@ -895,7 +922,8 @@ def check_algo(desc, base, cap, algos=("exhaustive", "exhaustive_stepwise", "red
                 if bad:
                     S, f = bad[0]
                     fail("reduced_stepwise", "forbidden:" + _why_forbidden(tuple(sorted(S)), f, keys),
-                         f"adds {j(f)} to a model with {j(S)}, which the documented rules do not allow")
+                         f"adds {j(f)} to a model with {j(S)}, which the documented rules do not allow",
+                         bad_prev=j(sorted(S)), bad_feat=j(f))
                 elif miss:
                     S, f = miss[0]
                     fail("reduced_stepwise", "missing", f"never adds {j(f)} to the model with {j(S)} ({len(miss)} steps missing)")
@@ -931,12 +959,13 @@ def _compare_paths(algo, paths, req, opt, keys, fail):
         p = bad[0]
         # first offending step
         why = "other"
+        i = 0
         for i in range(len(p)):
             if not R.step_allowed(p[:i], p[i], keys):
                 why = _why_forbidden(p[:i], p[i], keys)
                 break
         fail(algo, "forbidden:" + why, f"generates the path {j(p)} which the documented rules do not allow ({why}); "
-                                      f"{len(bad)} such paths")
+                                      f"{len(bad)} such paths", bad_prev=j(p[:i]), bad_feat=j(p[i]))
         return
     miss = sorted(req - set(paths), key=lambda p: (len(p), p))
     if miss:
@@ -965,8 +994,9 @@ def run_algo(shard, tier, res):
             for f in fails:
                 key = "fail:" + f["class"]
                 res["outcomes"][key] = res["outcomes"].get(key, 0) + 1
-                _addv(res, {"kind": "algo", "desc": desc, "base": j(base), "algo": f["algo"], "class": f["class"],
-                            "what": f["what"], "cap": cap})
+                w = {"kind": "algo", "desc": desc, "base": j(base), "cap": cap}
+                w.update(f)
+                _addv(res, w)
             if len(res["samples"]) < 2:
                 res["samples"].append(R.render(desc, R.STYLES[0]) + " base " + repr(base))
 
@@ -977,17 +1007,21 @@ def shards(tier):
     out = []
     # algorithm shards first (heaviest)
     nsp = len(algo_spaces(plan["algo"]))
-    step = 6 if tier == "quick" else 10
+    step = 6 if tier == "quick" else 20
     for lo in range(0, nsp, step):
         out.append(("algo", plan["algo"], lo, lo + step))
+    for size, maxlen in plan["desc"]:
+        n = len(R.statement_menu(size))
+        mod = 3 if n ** (maxlen - 1) > 50000 else 1
+        for first in range(n):
+            for rem in range(mod):
+                out.append(("desc", size, maxlen, first, mod, rem))
     npool = len(operand_pool(tier))
-    pstep = 8 if tier == "quick" else 12
+    pstep = 8 if tier == "quick" else 25
     for lo in range(0, npool, pstep):
         out.append(("pair", lo, lo + pstep))
-    for size, maxlen in plan["desc"]:
-        for first in range(len(R.statement_menu(size))):
-            out.append(("desc", size, maxlen, first))
-    out.append(("iiv",))
+    for i in range(6):
+        out.append(("iiv", i, 6))
     for n in range(plan["sets"], 0, -1):
         out.append(("sets", n))
     return out
@@ -1050,5 +1084,65 @@ def replay(w):
     return []
 
 
+def _mode_wildcard(desc):
+    """a '*' in the modes of ABSORPTION / ELIMINATION / LAGTIME / METABOLITE or in the compartment of PERIPHERALS"""
+    for st in desc:
+        if st[0] in ("ABSORPTION", "ELIMINATION", "LAGTIME", "METABOLITE") and st[1][0] == "wild":
+            return True
+        if st[0] == "PERIPHERALS" and st[2] is not None and st[2][0] == "wild":
+            return True
+    return False
+
+
 def classify(w):
+    """Narrow patterns of the genuine defects found on the unchanged tree (proposed_fixes/C18-*.md)."""
+    cls, what, kind = w.get("class", ""), w.get("what", ""), w.get("kind")
+    wild_te = "'Wildcard' object is not iterable" in what
+    if kind == "desc":
+        desc = w["desc"]
+        if cls.startswith("roundtrip-eq-exception:TypeError") and wild_te and _mode_wildcard(desc):
+            return "wildcard-modes-not-expanded"
+        if cls.startswith("parse-internal:IndexError") and any(st[0] == "ALLOMETRY" and st[2] is None for st in desc):
+            return "allometry-without-reference-indexerror"
+        if cls == "roundtrip-allometry" and any(st[0] == "ALLOMETRY" for st in desc):
+            return "repr-drops-allometry"
+        return None
+    if kind == "pair":
+        a, b = w["a"], w["b"]
+        ma, mb = R.meaning(a), R.meaning(b)
+        if cls.split(":")[0] in ("add", "sub", "eq", "lnt") and cls.split(":")[1:3] == ["exception", "TypeError"] \
+                and wild_te and (_mode_wildcard(a) or _mode_wildcard(b)):
+            return "wildcard-modes-not-expanded"
+        if cls == "eq:true-for-different:METABOLITE":
+            return "eq-ignores-metabolite"
+        if cls in ("eq:true-for-different:COVARIATE", "eq:true-for-different:COVARIATE,METABOLITE") \
+                and ma.cats["COVARIATE"] < mb.cats["COVARIATE"]:
+            return "eq-covariate-one-directional"
+        if cls == "eq:false-for-equal":
+            pa = [st for st in a if st[0] == "PERIPHERALS"]
+            pb = [st for st in b if st[0] == "PERIPHERALS"]
+            if pa and pb and pa != pb:
+                return "eq-peripherals-statementwise"
+        if cls.startswith("sub:result-unusable:TypeError") or (cls.startswith("sub:exception:TypeError")
+                                                                and "has no len()" in what):
+            if any(ma.cats[c] and ma.cats[c] < mb.cats[c] for c in ("DIRECT", "EFFECTCOMP", "METABOLITE")):
+                return "sub-emptied-category-object"
+        if cls.startswith("lnt:exception:KeyError") and "('INDIRECT', Name(" in what:
+            return "lnt-indirect-name-key"
+        if cls == "subset:true-for-nonsubset:TRANSITS":
+            ca, cb = {k[1] for k in ma.cats["TRANSITS"]}, {k[1] for k in mb.cats["TRANSITS"]}
+            da, db = {k[2] for k in ma.cats["TRANSITS"]}, {k[2] for k in mb.cats["TRANSITS"]}
+            if cb <= ca and db <= da:
+                return "contain-subset-transits-cross-product"
+        return None
+    if kind == "algo":
+        if cls in ("exhaustive_stepwise:forbidden:peripheral-order", "reduced_stepwise:forbidden:peripheral-order"):
+            keys = R.meaning(w["desc"]).keys() - {tuple(k) for k in w["base"]}
+            levels = sorted(k[1] for k in keys if k[0] == "PERIPHERALS" and len(k) == 2)
+            prev = [k[1] for k in w.get("bad_prev", []) if k[0] == "PERIPHERALS"]
+            n = w.get("bad_feat", [None, None])[1]
+            if len(levels) >= 3 and prev and n in levels and n != min(levels):
+                return "stepwise-peripherals-skip-level"
+        if cls == "reduced_stepwise:duplicate:groups=1":
+            return "reduced-stepwise-single-group-not-merged"
     return None
